@@ -45,7 +45,7 @@ def run_cfg(chk, facts, cfg):
         chk.notes.extend(m.problems)
         return
     from ..overrides import obligation as no_overrides
-    no_overrides(chk, PID, facts, sfx, [m.path], 'approx impls of Interval (the *_ne forms follow from the *_eq forms)')
+    no_overrides(chk, PID, facts, sfx, [m.path], 'approx impls of Interval (the *_ne forms follow from the *_eq forms)', traits=('AbsDiffEq', 'RelativeEq', 'UlpsEq', 'Display', 'Debug'))
     has_approx = 'approx' in facts.meta['features']
     n = 0
     for trait, meth, tols in APPROX:
